@@ -47,9 +47,28 @@ func NewEncoder(w io.Writer, np map[string]string) *Encoder {
 	return encoder
 }
 
+// stickyWriter remembers the first error (or short count) of the destination writer
+// and refuses all later writes, so that a failure can't be lost by a caller ignoring it.
+type stickyWriter struct {
+	w   io.Writer
+	err error
+}
+
+func (s *stickyWriter) Write(p []byte) (int, error) {
+	if s.err != nil {
+		return 0, s.err
+	}
+	n, err := s.w.Write(p)
+	if err == nil && n < len(p) {
+		err = io.ErrShortWrite
+	}
+	s.err = err
+	return n, err
+}
+
 //Reset reset
 func (e *Encoder) Reset(w io.Writer) {
-	e.writer = w
+	e.writer = &stickyWriter{w: w}
 	e.clsDefList = make([]ClassDef, 0, 11)
 	e.refMap = make(map[unsafe.Pointer]_refElem, 11)
 }
@@ -67,6 +86,9 @@ func (e *Encoder) RegisterNameMap(mp map[string]string) {
 //WriteObject write object
 func (e *Encoder) WriteObject(data interface{}) error {
 	_, err := e.WriteData(data)
+	if sw, ok := e.writer.(*stickyWriter); ok && err == nil {
+		err = sw.err
+	}
 	return err
 }
 
